@@ -59,7 +59,8 @@ def parse_stderr(err):
             if m3 and i + 1 < len(b['lines']) and re.search(r'(failed (this )?(pre|post)condition|failed precondition|invariant|assertion)', b['lines'][i + 1]):
                 clause = (int(m3.group(1)), m3.group(2).strip())
                 break
-        out.append({'code': code, 'msg': msg, 'loc': loc, 'clause': clause, 'text': '\n'.join(b['lines']).rstrip()})
+        span_lines = [int(m4.group(1)) for m4 in (re.match(r'^\s*(\d+)\s*\|', l) for l in b['lines']) if m4]
+        out.append({'code': code, 'msg': msg, 'loc': loc, 'clause': clause, 'span_lines': span_lines, 'text': '\n'.join(b['lines']).rstrip()})
     return out
 
 
@@ -104,9 +105,30 @@ def enclosing_fn(lines, lineno):
 
 def run_unit(unit, repo='/repo', rlimit=50, seed=None, threads=None, keep=True, workdir_tag=None):
     t0 = time.time()
-    wd = os.path.join(WORK, unit if not workdir_tag else '%s.%s' % (unit, workdir_tag))
+    # one private work directory per process and unit: concurrent checks (two properties sharing a unit, a scratch run next to
+    # a /repo run) must never see each other's assembled file.  The result is published to .work/<unit>/ at the end.
+    pub_wd = os.path.join(WORK, unit if not workdir_tag else '%s.%s' % (unit, workdir_tag))
+    wd = '%s.p%d.%d' % (pub_wd, os.getpid(), threading.get_ident() % 1000003)
     os.makedirs(wd, exist_ok=True)
     out_path = os.path.join(wd, 'vx_%s.rs' % unit)
+    try:
+        r = _run_unit(unit, repo, rlimit, seed, threads, wd, out_path, t0)
+        r['file'] = os.path.join(pub_wd, 'vx_%s.rs' % unit)
+        return r
+    finally:
+        import shutil
+        try:
+            os.makedirs(pub_wd, exist_ok=True)
+            for fn in os.listdir(wd):
+                src = os.path.join(wd, fn)
+                if os.path.isfile(src):
+                    os.replace(src, os.path.join(pub_wd, fn))
+        except OSError:
+            pass
+        shutil.rmtree(wd, ignore_errors=True)
+
+
+def _run_unit(unit, repo, rlimit, seed, threads, wd, out_path, t0):
     res = {'unit': unit, 'status': None, 'failures': [], 'undecided': [], 'functions': [], 'verified': 0, 'errors': 0,
            'extracts': [], 'trusted': [], 'cmd': None, 'smt_ms': 0, 'wall_s': 0.0, 'file': out_path}
     lost = []
@@ -148,6 +170,66 @@ def run_unit(unit, repo='/repo', rlimit=50, seed=None, threads=None, keep=True, 
         cmd += ['--smt-option', 'smt.random_seed=%d' % (seed % 100000)]
     res['cmd'] = ' '.join(cmd)
     p = subprocess.run(cmd, stdout=subprocess.PIPE, stderr=subprocess.PIPE, text=True, cwd=wd)
+    # a spliced proof hint that no longer COMPILES against the changed function (it names a local that was renamed, inlined or
+    # moved out of scope) is a lost hint, exactly like one whose anchor is gone: blank it and verify the rest.  Only text between
+    # the hint markers is ever removed; the contract (@sig) and the real code are never touched.
+    for _round in range(6):
+        bad = []
+        txt = open(out_path, encoding='utf-8').read()
+        gl = extract.ghost_lines(txt)
+        for d in parse_stderr(p.stderr):
+            if d['code'] and d['loc'] and d['loc'][1] in gl:
+                bad.append(d)
+        if not bad:
+            break
+        tl = txt.split('\n')
+        changed = False
+        # hint regions as (first line, last line) pairs, 0-based; regions do not nest
+        spans = []
+        opn = None
+        for q, l in enumerate(tl):
+            pos = 0
+            while True:
+                ia = l.find(extract.GB, pos)
+                ib = l.find(extract.GE, pos)
+                if opn is None and ia >= 0 and (ib < 0 or ia < ib):
+                    opn = q
+                    pos = ia + len(extract.GB)
+                elif opn is not None and ib >= 0:
+                    spans.append((opn, q))
+                    opn = None
+                    pos = ib + len(extract.GE)
+                else:
+                    break
+        done = set()
+        for d in bad:
+            ln = d['loc'][1] - 1
+            sp = [x for x in spans if x[0] <= ln <= x[1]]
+            if not sp or sp[0] in done:
+                continue
+            a, b = sp[0]
+            ex = None
+            for e in meta['extracts']:
+                if e['out_lines'][0] <= ln + 1 <= e['out_lines'][1]:
+                    ex = e
+            if ex is None:
+                continue
+            done.add((a, b))
+            first = tl[a][:tl[a].index(extract.GB)]
+            last = tl[b][tl[b].rindex(extract.GE) + len(extract.GE):]
+            for q in range(a, b + 1):
+                tl[q] = ''
+            tl[a] = first
+            tl[b] = (tl[b] + last) if a == b else last
+            lost.append((ex['label'], 'hint does not compile against the current function text (%s)' % d['msg'][:80]))
+            changed = True
+        if not changed:
+            break
+        with open(out_path, 'w', encoding='utf-8') as f:
+            f.write('\n'.join(tl))
+        p = subprocess.run(cmd, stdout=subprocess.PIPE, stderr=subprocess.PIPE, text=True, cwd=wd)
+    res['lost_hints'] = ['%s %s' % x for x in lost]
+    lost_fns = set(w.split('::')[-1] for w, _ in lost)
     res['wall_s'] = time.time() - t0
     with open(os.path.join(wd, 'verus.stderr'), 'w') as f:
         f.write(p.stderr)
@@ -180,6 +262,16 @@ def run_unit(unit, repo='/repo', rlimit=50, seed=None, threads=None, keep=True, 
             if e['out_lines'][0] <= line <= e['out_lines'][1]:
                 ex = e
                 break
+        if ex is None and cls == 'vc':
+            # the primary span of a failed postcondition is the clause itself, which for trait methods sits in the trait
+            # declaration of the template; the function that fails it is named by the secondary spans (`at this exit`, ...)
+            for ln2 in d.get('span_lines', []):
+                for e in meta['extracts']:
+                    if e['out_lines'][0] <= ln2 <= e['out_lines'][1] and e.get('kind', 'fn') != 'sig-only':
+                        ex = e
+                        break
+                if ex:
+                    break
         label = ex['label'] if ex else enclosing_fn(lines, line)
         src = lines[line - 1].strip() if 0 < line <= len(lines) else ''
         if cls == 'vc':
@@ -193,8 +285,8 @@ def run_unit(unit, repo='/repo', rlimit=50, seed=None, threads=None, keep=True, 
             level = 'contract' if ex else 'lemma'
             if ex and line in glines:
                 level = 'hint'
-            if ex and ex.get('name') in lost_fns:
-                level = 'hint'    # hints of this function were dropped (lost anchors): a failure may just be a missing hint
+            if ex and (ex.get('name') in lost_fns or ex.get('label') in lost_fns):
+                level = 'hint-lost'    # hints of this function were dropped (lost anchors): a failure may just be a missing hint
             res['failures'].append({'level': level,
                 'obligation': ob, 'clause': extract.norm_ws(clause)[:200], 'kind': kind, 'message': d['msg'],
                 'function': label, 'real_code': bool(ex), 'source': ({'file': ex['file'], 'lines': ex['lines'], 'sha256': ex['sha256']} if ex else None),
